@@ -15,4 +15,34 @@ HalfOf(a, b)    == (b - a + 1) \div 2
 FreeRun(S, busy, a, b) == \A k \in a..b : k \in S /\ k \notin busy
 
 RoundTrip == \A n \in -6..6, m \in 1..4 : CentreOf(StartN(n, m), StopN(n, m)) = n /\ HalfOf(StartN(n, m), StopN(n, m)) = m
+
+-----------------------------------------------------------------------------
+(* The frequency side.  Frequencies are integers in MHz counted from the anchor 193.1 THz (so they fit TLC's integers  *)
+(* and every grid frequency is exact, as it is in a double); the index grid is 6.25 GHz, a slot of width M spans         *)
+(* M * 12.5 GHz.  frequency_to_n is `int((f - 193.1e12) / grid)`: Python's int() TRUNCATES TOWARDS ZERO, which is the     *)
+(* floor above the anchor and the ceiling below it - modelled as it is (TruncDiv), not idealised.                         *)
+GridMHz == 6250
+TruncDiv(a, b) == IF a >= 0 THEN a \div b ELSE -((-a) \div b)        \* int(a / b) for b > 0
+NOfFreq(f)     == TruncDiv(f, GridMHz)                                 \* frequency_to_n
+FreqOfN(n)     == n * GridMHz                                          \* nvalue_to_frequency
+SlotEdges(n, m) == <<FreqOfN(StartN(n, m)), FreqOfN(StopN(n, m) + 1)>> \* m_to_freq: [lower edge, upper edge)
+\* Bitmap(f_min, f_max, guardband): the index axis of a spectrum map and the indices the guard bands leave usable
+AxisOf(fmin, fmax)      == NOfFreq(fmin)..NOfFreq(fmax)
+GuardLo(fmin, guard)    == NOfFreq(fmin + guard)
+GuardHi(fmax, guard)    == NOfFreq(fmax - guard)
+Overlap(n1, m1, n2, m2) == SlotRange(n1, m1) \cap SlotRange(n2, m2) # {}
+
+\* lemmas (checked by TLC on a window around the anchor, MC_FlexGrid)
+GridInverse(NS)     == \A n \in NS : NOfFreq(FreqOfN(n)) = n
+WidthLaw(NS, MS)    == \A n \in NS, m \in MS : SlotEdges(n, m)[2] - SlotEdges(n, m)[1] = m * 12500
+CentreLaw(NS, MS)   == \A n \in NS, m \in MS : SlotEdges(n, m)[1] + SlotEdges(n, m)[2] = 2 * FreqOfN(n)
+OverlapLaw(NS, MS)  == \A n1, n2 \in NS, m1, m2 \in MS : Overlap(n1, m1, n2, m2) <=> AbsI(n1 - n2) < m1 + m2
+\* two slots share an index exactly when their frequency intervals [lo, hi) intersect
+IndexIsFrequency(NS, MS) == \A n1, n2 \in NS, m1, m2 \in MS :
+    LET a == SlotEdges(n1, m1)  b == SlotEdges(n2, m2) IN Overlap(n1, m1, n2, m2) <=> (a[1] < b[2] /\ b[1] < a[2])
+AdjacentLaw(NS, MS) == \A n \in NS, m1, m2 \in MS : StopN(n, m1) + 1 = StartN(n + m1 + m2, m2)
+\* truncation: never away from the anchor; the index found is the grid point at or next to f on the anchor's side
+TruncLaw(FS)        == \A f \in FS : LET n == NOfFreq(f) IN
+                          /\ AbsI(FreqOfN(n)) <= AbsI(f) /\ AbsI(f) - AbsI(FreqOfN(n)) < GridMHz
+                          /\ (f >= 0 => n >= 0) /\ (f <= 0 => n <= 0)
 ==============================================================================
